@@ -1,3 +1,5 @@
+module L = Stdlib.List
+module String = Stdlib.String
 (* C19 correspondence: the back-off model (extracted Backoff) against MqttClientImpl. *)
 open Util
 open Backoff
@@ -15,12 +17,12 @@ let gen_case (r : rng) =
   let base = pick_arr r ns_pool and mx = pick_arr r ns_pool and stab = pick_arr r stab_pool in
   let n = 1 + rand_int r (if chance r 20 then 80 else 12) in
   let stab_ms = (try int_of_string stab / 1_000_000 with _ -> max_int) in
-  let acts = List.init n (fun _ ->
+  let acts = L.init n (fun _ ->
     if chance r 75 then AWait
     else if chance r 25 then AConn None
     else
       (* ages at least 60 ms away from the stability period on either side, at most 400 ms *)
-      let cands = List.filter (fun a -> a >= 0 && a <= 400 && abs (a - stab_ms) >= 60)
+      let cands = L.filter (fun a -> a >= 0 && a <= 400 && abs (a - stab_ms) >= 60)
                     [0; 20; stab_ms - 60; stab_ms + 60; stab_ms + 150; 300] in
       match cands with [] -> AConn None | _ -> AConn (Some (pick r cands))) in
   (jit, base, mx, stab, acts)
@@ -32,7 +34,7 @@ let run_case (h : harness) (jit, base, mx, stab, acts) (dist : (string, int) Has
   let cfg = { c_jit = (if jit = 0 then JNone else JUniform); c_base = n_of_string base; c_max = n_of_string mx; c_stab = n_of_string stab } in
   let cfg_nojit = { cfg with c_jit = JNone } in
   let desc = Printf.sprintf "jitter=%d base=%sns max=%sns stability=%sns [%s]" jit base mx stab
-      (String.concat "," (List.map act_to_string acts)) in
+      (String.concat "," (L.map act_to_string acts)) in
   let reply = ask h (Printf.sprintf "BNEW %d %s %s %s 1000000000" jit base mx stab) in
   if reply <> "ok" then (Some ("tie", desc ^ " :: BNEW -> " ^ reply), desc, 0)
   else begin
@@ -46,7 +48,7 @@ let run_case (h : harness) (jit, base, mx, stab, acts) (dist : (string, int) Has
       if nx <> expect && !tie = None then
         tie := Some ("tie", Printf.sprintf "%s :: after %d events next period impl=%s model=%s" desc !events nx expect) in
     check_next ();
-    List.iter (fun a ->
+    L.iter (fun a ->
       if !failure = None then begin
         incr events;
         (match a with
@@ -66,8 +68,8 @@ let run_case (h : harness) (jit, base, mx, stab, acts) (dist : (string, int) Has
              | ["ok"; v] ->
                let vb = big_of_string v and bb = big_of_string (string_of_n bound) in
                let le a b = (* a <= b on little-endian base 1e9 lists *)
-                 let la = List.length a and lb = List.length b in
-                 if la <> lb then la < lb else (List.rev a) <= (List.rev b) in
+                 let la = L.length a and lb = L.length b in
+                 if la <> lb then la < lb else (L.rev a) <= (L.rev b) in
                let ok = if bb = [] then vb = [] else (le vb bb && vb <> bb) in
                if not ok then failure := Some ("property", Printf.sprintf "%s :: jittered wait #%d impl=%s outside [0,%s)" desc !events v (string_of_n bound))
              | _ -> failure := Some ("property", Printf.sprintf "%s :: wait #%d impl=%s (bound %s)" desc !events reply (string_of_n bound))
@@ -80,7 +82,7 @@ let run_case (h : harness) (jit, base, mx, stab, acts) (dist : (string, int) Has
            let evs = (match age with
                | None -> [ConnEnd (n_of_int 5)]
                | Some a -> [Success N0; ConnEnd (n_of_string (Printf.sprintf "%d000000" (a + 1)))]) in
-           List.iter (fun e -> st := fst (step !st e); stb := fst (step !stb e)) evs);
+           L.iter (fun e -> st := fst (step !st e); stb := fst (step !stb e)) evs);
         check_next ()
       end) acts;
     ((match !failure with Some f -> Some f | None -> !tie), desc, !events)
@@ -93,19 +95,19 @@ let main (seed : int) (count : int) (harness_path : string) (corpus : string lis
   let seen = Hashtbl.create 1024 in
   let fails = ref [] and samples = ref [] and total_events = ref 0 and nontrivial = ref 0 in
   (* corpus: files of lines `<jit> <base_ns> <max_ns> <stab_ns> w,w,c-,c<age_ms>,...`; run first *)
-  let corpus_cases = List.concat_map (fun file ->
+  let corpus_cases = L.concat_map (fun file ->
       let ic = open_in file in
       let rec go acc = match input_line ic with
         | l -> (match split_ws l with
             | [j; b; m; st; acts] when j <> "#" ->
-              let acts = List.map (fun a -> if a = "w" then AWait else if a = "c-" then AConn None
+              let acts = L.map (fun a -> if a = "w" then AWait else if a = "c-" then AConn None
                                     else AConn (Some (int_of_string (String.sub a 1 (String.length a - 1)))))
                   (String.split_on_char ',' acts) in
               go ((int_of_string j, b, m, st, acts) :: acc)
             | _ -> go acc)
-        | exception End_of_file -> close_in ic; List.rev acc in
+        | exception End_of_file -> close_in ic; L.rev acc in
       go []) corpus in
-  let ncorpus = List.length corpus_cases in
+  let ncorpus = L.length corpus_cases in
   let corpus_left = ref corpus_cases in
   for i = 1 to count + ncorpus do
     let c = (match !corpus_left with x :: tl -> corpus_left := tl; x | [] -> gen_case r) in
@@ -114,7 +116,7 @@ let main (seed : int) (count : int) (harness_path : string) (corpus : string lis
     if not (Hashtbl.mem seen desc) then begin
       Hashtbl.add seen desc ();
       let (_, _, _, _, acts) = c in
-      if List.length acts >= 2 then incr nontrivial
+      if L.length acts >= 2 then incr nontrivial
     end;
     if i <= 3 then samples := desc :: !samples;
     (match f with Some (k, m) -> fails := (k, m) :: !fails | None -> ())
@@ -124,5 +126,5 @@ let main (seed : int) (count : int) (harness_path : string) (corpus : string lis
     "cases", string_of_int (count + ncorpus); "corpus_cases", string_of_int ncorpus; "events", string_of_int !total_events;
     "distinct_nontrivial", string_of_int !nontrivial;
     "distribution", jtable dist;
-    "samples", jlist (List.map jstr (List.rev !samples));
-    "failures", jlist (List.map (fun (k, m) -> jobj ["kind", jstr k; "detail", jstr m]) (List.rev !fails)) ])
+    "samples", jlist (L.map jstr (L.rev !samples));
+    "failures", jlist (L.map (fun (k, m) -> jobj ["kind", jstr k; "detail", jstr m]) (L.rev !fails)) ])
